@@ -96,6 +96,11 @@ var tmpls = []tmpl{
 	{"defun", "any", "(progn (defun c8-helper (a) (list a %a)) (c8-helper %a))"},
 	{"defun", "any", "(progn (let ((base %i)) (defun c8-closure (k) (list k base %a))) (c8-closure %a))"},
 	{"defun", "any", "(let ((a %i)) (let* ((b (+ a 1))) (defun c8-closure2 () (list a b))) (list (c8-closure2) %a))"},
+	// macros: c8-mac is defined once per worker process (initWorker), so its template is shared by
+	// every expansion of every evaluation; the defmacro template defines and uses a macro in one form
+	{"c8-mac", "int", "(c8-mac %i %i)"},
+	{"c8-mac", "any", "(let ((v %i)) (list (c8-mac v %i) (c8-mac %i v)))"},
+	{"defmacro", "any", "(progn (defmacro c8-mac2 (a) `(let ((w ,a)) (list w (list (+ w 1) (quote (1 2)))))) (list (c8-mac2 %i) (c8-mac2 %i) %a))"},
 	// iteration
 	{"dolist", "int", "(let ((acc 0)) (dolist (el (list %i %i %i) acc) (setq acc (+ acc (vtr %k el)))))"},
 	{"dotimes", "any", "(let ((acc nil)) (dotimes (i (length (list %a %a)) acc) (setq acc (cons (vtr %k i) acc))))"},
@@ -489,14 +494,19 @@ func inventory(x *fw.Ctx) {
 			}
 			macro := fi.Doc != nil && fi.Doc.Kind == slip.MacroSymbol
 			skips := false
+			userDefined := false
 			_ = sl.Catch(func() {
-				if sk, ok := fi.Create(slip.List{}).(skipper); ok {
+				f := fi.Create(slip.List{})
+				if _, dyn := f.(*slip.Dynamic); dyn && !strings.HasPrefix(fi.Name, "c8-") {
+					userDefined = true // a macro or function an earlier case of this worker defined
+				}
+				if sk, ok := f.(skipper); ok {
 					for i := 0; i < 6; i++ {
 						skips = skips || sk.SkipArgEval(i)
 					}
 				}
 			})
-			if macro || skips {
+			if (macro || skips) && !userDefined {
 				names = append(names, fi.Name)
 			}
 		})
